@@ -55,6 +55,38 @@ type Op struct {
 	// and joining the fan-out set must be one handler step, so the event
 	// can only be accepted after the registration.
 	Gate bool `json:"gate,omitempty"`
+	// osub: an overlap group: len(Members) NewSubscription calls issued from
+	// separate goroutines so that they are in progress at the same time.
+	//   Pat "first": member 0 is issued, the handler is held inside its
+	//     backlog request (NotificationsSinceHeight), the other members are
+	//     issued, then the handler is released;
+	//   Pat "chain": the handler is held inside every member's backlog
+	//     request in turn (Prog: the next member is only issued while the
+	//     handler is held in the previous one's request);
+	//   Pat "free": no gating, all members start at the same moment.
+	// Mid: actions started (asynchronously) while the handler is held.
+	Members []Member `json:"members,omitempty"`
+	Pat     string   `json:"pat,omitempty"`
+	Prog    bool     `json:"prog,omitempty"`
+	Mid     []MidAct `json:"mid,omitempty"`
+}
+
+// Member is one NewSubscription call of an overlap group.
+type Member struct {
+	BL   int    `json:"bl,omitempty"`
+	Mode string `json:"mode"`
+	Zero bool   `json:"zero,omitempty"`
+	Fail bool   `json:"fail,omitempty"`
+}
+
+// MidAct is started while the handler is held for the At-th time in an
+// overlap group: "cancel" of script subscriber Sub (registered earlier, or a
+// member of the group that has already returned), "emit" of N events.
+type MidAct struct {
+	At   int    `json:"at"`
+	Kind string `json:"kind"`
+	Sub  int    `json:"sub,omitempty"`
+	N    int    `json:"n,omitempty"`
 }
 
 // SubObs is what was observed for one `sub` op.
@@ -71,6 +103,9 @@ type SubObs struct {
 	Ended    bool    `json:"ended"`
 	MustUpto int64   `json:"must_upto"`
 	EHi      int64   `json:"ehi"`
+	// Reg: position in the order in which the handler registered the
+	// successful subscriptions (-1: not registered)
+	Reg int `json:"reg"`
 }
 
 // History is a replayable case with its observations.
@@ -82,7 +117,11 @@ type History struct {
 	Emitted []int64  `json:"emitted"`
 	Acts    []string `json:"acts"`
 	Subs    []SubObs `json:"subs"`
-	Fails   []string `json:"fails,omitempty"`
+	// Snaps: what a subscriber had seen at the moment its consumer observed
+	// the channel closed during the history (Ended: its Cancel or Stop had
+	// been requested by then)
+	Snaps []SubObs `json:"snaps,omitempty"`
+	Fails []string `json:"fails,omitempty"`
 }
 
 // ---------------------------------------------------------------------
@@ -100,6 +139,8 @@ type source struct {
 	// came in: the backlog is a snapshot taken at that emission position
 	entry map[uint32][2]int64
 	r     *runner
+	// grp: the overlap group in progress serves the backlog requests
+	grp *group
 }
 
 const gateWait = 3 * time.Millisecond
@@ -108,6 +149,10 @@ func (s *source) Notifications() <-chan blockntfns.BlockNtfn { return s.ch }
 
 func (s *source) NotificationsSinceHeight(h uint32) ([]blockntfns.BlockNtfn, uint32, error) {
 	s.mu.Lock()
+	if g := s.grp; g != nil {
+		s.mu.Unlock()
+		return g.serve(h)
+	}
 	d := s.dl[h]
 	g := s.gate[h]
 	s.entry[h] = [2]int64{s.r.completed.Load(), s.r.started.Load()}
@@ -168,6 +213,9 @@ type subState struct {
 	done     chan struct{}
 	delay    time.Duration
 	reading  atomic.Bool
+	r        *runner
+	script   int
+	endReq   atomic.Bool // Cancel of this subscription has been requested
 }
 
 func (s *subState) wake() {
@@ -188,6 +236,9 @@ func (s *subState) consume() {
 	s.mu.Lock()
 	s.closed = true
 	s.mu.Unlock()
+	if s.r != nil {
+		s.r.sawClose(s)
+	}
 }
 
 func (s *subState) has(id int64) bool {
@@ -229,6 +280,45 @@ type runner struct {
 	runAt            int
 
 	gateAccepted atomic.Int64
+
+	regOrder   []int // script numbers in registration order
+	epilogue   atomic.Bool
+	snapMu     sync.Mutex
+	snaps      []SubObs
+	overlapped int
+}
+
+// sawClose is called by a consumer that observed its channel closed.  A
+// channel may only be closed by that subscription's own Cancel or by Stop.
+func (r *runner) sawClose(s *subState) {
+	if r.epilogue.Load() {
+		return
+	}
+	ended := s.endReq.Load() || r.stopBegun.Load()
+	ehi := int64(-1)
+	if ended {
+		ehi = r.started.Load()
+	}
+	s.mu.Lock()
+	o := *s.obs
+	o.Got = append([]int64{}, s.got...)
+	s.mu.Unlock()
+	o.Closed, o.Ended, o.EHi, o.MustUpto = true, ended, ehi, 0
+	r.snapMu.Lock()
+	r.snaps = append(r.snaps, o)
+	r.snapMu.Unlock()
+	if !ended {
+		r.fail("closed-without-cancel", fmt.Sprintf("the notification channel of subscriber %d was closed although neither its own Cancel nor Stop had been requested (another client's Cancel reached it)", s.script))
+	}
+}
+
+func (r *runner) regIndex(script int) int {
+	for i, s := range r.regOrder {
+		if s == script {
+			return i
+		}
+	}
+	return -1
 }
 
 func (r *runner) fail(tag, what string) {
@@ -366,6 +456,8 @@ func (r *runner) doSub(script int, op Op) {
 
 	var sub *blockntfns.Subscription
 	var err error
+	o.Reg = -1
+	r.act("ACall")
 	o.RLo = r.completed.Load()
 	ok := withDeadline(callDeadline, func() { sub, err = r.mgr.NewSubscription(h) })
 	o.RHi = r.started.Load()
@@ -390,37 +482,411 @@ func (r *runner) doSub(script int, op Op) {
 	if err != nil || sub == nil {
 		r.h.Subs = append(r.h.Subs, *o)
 		r.addSub(nil)
+		r.act("(AFail 0)")
 		return
 	}
 	o.OK = true
-	st := &subState{obs: o, sub: sub, wakeCh: make(chan struct{}), done: make(chan struct{})}
-	if op.Mode == "slow" {
+	o.Reg = len(r.regOrder)
+	r.regOrder = append(r.regOrder, script)
+	st := r.newSubState(script, op.Mode, o, sub)
+	r.addSub(st)
+	r.nOK++
+	r.act(c.App("AReg", "0", zlist(o.Backlog)))
+}
+
+// newSubState starts the consumer of a registered subscription.
+func (r *runner) newSubState(script int, mode string, o *SubObs, sub *blockntfns.Subscription) *subState {
+	st := &subState{obs: o, sub: sub, wakeCh: make(chan struct{}), done: make(chan struct{}), r: r, script: script}
+	if mode == "slow" {
 		st.delay = time.Duration(1+script%4) * slowReaderUnit
 	}
-	if op.Mode != "never" {
+	if mode != "never" {
 		st.wake()
 	}
 	go st.consume()
-	r.addSub(st)
-	r.nOK++
-	r.act(c.App("AReg", zlist(o.Backlog)))
+	return st
 }
 
-// modelIndex maps a script subscriber to its index among successful ones.
-func (r *runner) modelIndex(script int) int {
-	k := 0
-	for i := 0; i < script; i++ {
-		if r.subs[i] != nil {
-			k++
+// ---------------------------------------------------------------------
+// Overlap groups: NewSubscription calls in progress at the same time.
+
+const (
+	holdDeadline = 2 * time.Second
+	stagger      = 120 * time.Microsecond
+)
+
+type member struct {
+	idx    int
+	script int
+	spec   Member
+	h      uint32
+	obs    *SubObs
+	st     *subState
+	ok     bool
+	ret    chan struct{}
+	// set by serve under group.mu
+	entered  bool
+	held     bool
+	released bool
+	entryC   int64
+	entryS   int64
+	issued   bool
+	rhi      int64
+}
+
+type group struct {
+	r         *runner
+	mu        sync.Mutex
+	ms        []*member
+	hold      bool
+	order     []int // members in the order the handler asked for their backlog
+	enteredCh chan int
+	doneCh    chan int
+	release   chan struct{}
+}
+
+// serve is NotificationsSinceHeight while the group runs (handler goroutine).
+func (g *group) serve(h uint32) ([]blockntfns.BlockNtfn, uint32, error) {
+	g.mu.Lock()
+	var m *member
+	for _, x := range g.ms {
+		if x.issued && !x.entered && x.h == h {
+			m = x
+			break
 		}
 	}
-	return k
+	if m == nil {
+		g.mu.Unlock()
+		return nil, 0, fmt.Errorf("backlog request for an unknown height %d", h)
+	}
+	m.entered, m.held = true, g.hold
+	m.entryC, m.entryS = g.r.completed.Load(), g.r.started.Load()
+	g.order = append(g.order, m.idx)
+	held := m.held
+	g.mu.Unlock()
+	g.enteredCh <- m.idx
+	if held {
+		t := time.NewTimer(holdDeadline)
+		select {
+		case <-g.release:
+		case <-t.C:
+		}
+		t.Stop()
+	}
+	if m.spec.Fail {
+		return nil, 0, fmt.Errorf("scripted source failure")
+	}
+	if h == 0 {
+		return nil, 0, nil
+	}
+	out := make([]blockntfns.BlockNtfn, 0, len(m.obs.Backlog))
+	for _, id := range m.obs.Backlog {
+		out = append(out, ntfn(id))
+	}
+	return out, h + uint32(len(out)), nil
+}
+
+// issue starts member i's NewSubscription call in its own goroutine.
+func (g *group) issue(i int, start <-chan struct{}) {
+	m := g.ms[i]
+	m.obs.RLo = g.r.completed.Load()
+	g.mu.Lock()
+	m.issued = true
+	g.mu.Unlock()
+	go func() {
+		defer func() { close(m.ret); g.doneCh <- i }()
+		if start != nil {
+			<-start
+		}
+		var sub *blockntfns.Subscription
+		var err error
+		ok := withDeadline(callDeadline+holdDeadline, func() { sub, err = g.r.mgr.NewSubscription(m.h) })
+		m.rhi = g.r.started.Load()
+		if !ok {
+			g.r.fail("register-hang", fmt.Sprintf("NewSubscription(%d) did not return within %v", m.h, callDeadline+holdDeadline))
+			return
+		}
+		if err != nil || sub == nil {
+			return
+		}
+		// the observation is complete before the consumer starts (a
+		// snapshot may be taken as soon as it runs)
+		g.mu.Lock()
+		g.bounds(m)
+		g.mu.Unlock()
+		m.obs.OK = true
+		m.st = g.r.newSubState(m.script, m.spec.Mode, m.obs, sub)
+		m.ok = true
+	}()
+}
+
+// bounds: registration point of m in the emission order: between the start
+// and the return of the call, and as of the moment the handler asked for the
+// backlog (the backlog is a snapshot taken then).
+func (g *group) bounds(m *member) {
+	o := m.obs
+	o.RHi = m.rhi
+	if m.entered {
+		if m.entryC > o.RLo {
+			o.RLo = m.entryC
+		}
+		if m.entryS < o.RHi {
+			o.RHi = m.entryS
+		}
+	}
+}
+
+// releaseOne lets the handler leave the backlog request it is held in.
+func (g *group) releaseOne() {
+	g.mu.Lock()
+	n := 0
+	for _, i := range g.order {
+		if m := g.ms[i]; m.held && !m.released {
+			m.released = true
+			n++
+			break
+		}
+	}
+	g.mu.Unlock()
+	for ; n > 0; n-- {
+		g.release <- struct{}{}
+	}
+}
+
+// releaseAll stops holding and releases whoever is held.
+func (g *group) releaseAll() {
+	g.mu.Lock()
+	g.hold = false
+	n := 0
+	for _, m := range g.ms {
+		if m.held && !m.released {
+			m.released = true
+			n++
+		}
+	}
+	g.mu.Unlock()
+	for ; n > 0; n-- {
+		g.release <- struct{}{}
+	}
+}
+
+func (r *runner) doGroup(base int, op Op) {
+	k := len(op.Members)
+	if k == 0 {
+		return
+	}
+	g := &group{r: r, hold: op.Pat == "first" || op.Pat == "chain",
+		enteredCh: make(chan int, k), doneCh: make(chan int, k), release: make(chan struct{}, k)}
+	for i, sp := range op.Members {
+		script := base + i
+		o := &SubObs{Script: script, Mode: sp.Mode, EHi: -1, Reg: -1}
+		h := uint32(heightPerSub * (script + 1))
+		if sp.Zero {
+			h = 0
+		}
+		o.Height = h
+		if !sp.Fail && h != 0 {
+			ids := make([]int64, sp.BL)
+			for j := range ids {
+				ids[j] = int64(backlogIDBase*(script+1) + j + 1)
+			}
+			o.Backlog = ids
+		}
+		g.ms = append(g.ms, &member{idx: i, script: script, spec: sp, h: h, obs: o, ret: make(chan struct{})})
+	}
+	r.src.mu.Lock()
+	r.src.grp = g
+	r.src.mu.Unlock()
+	r.overlapped += k
+
+	nIssued, nReturned := 0, 0
+	// wait: "entered" (the handler is inside a backlog request), "done"
+	// (every issued call has returned) or "timeout"
+	wait := func(d time.Duration) string {
+		t := time.NewTimer(d)
+		defer t.Stop()
+		for {
+			if nReturned == nIssued {
+				return "done"
+			}
+			select {
+			case <-g.enteredCh:
+				return "entered"
+			case <-g.doneCh:
+				nReturned++
+			case <-t.C:
+				return "timeout"
+			}
+		}
+	}
+	issue := func(i int, start <-chan struct{}) {
+		g.issue(i, start)
+		nIssued++
+	}
+	emitting := false
+	mid := func(at int) {
+		for _, ma := range op.Mid {
+			if ma.At != at {
+				continue
+			}
+			switch ma.Kind {
+			case "emit":
+				// one emitter at a time: the emission order is what the
+				// emitter records
+				if emitting {
+					continue
+				}
+				emitting = true
+				n := ma.N
+				r.async.Add(1)
+				go func() { defer r.async.Done(); r.emitN(n) }()
+			case "cancel":
+				var st *subState
+				if ma.Sub >= base && ma.Sub < base+k {
+					m := g.ms[ma.Sub-base]
+					t := time.NewTimer(2 * time.Millisecond)
+					select {
+					case <-m.ret:
+						if m.ok {
+							st = m.st
+						}
+					case <-t.C:
+					}
+					t.Stop()
+				} else {
+					st = r.subAt(ma.Sub)
+				}
+				if st != nil {
+					s := ma.Sub
+					r.async.Add(1)
+					go func() { defer r.async.Done(); r.doCancel(s, st) }()
+				}
+			}
+		}
+		if len(op.Mid) > 0 {
+			time.Sleep(stagger)
+		}
+	}
+	finish := func() {
+		g.releaseAll()
+		for {
+			ev := wait(callDeadline + 2*holdDeadline)
+			if ev == "done" {
+				break
+			}
+			if ev == "timeout" {
+				r.fail("overlap-hang", "overlapping NewSubscription calls did not all return")
+				break
+			}
+		}
+	}
+
+	switch op.Pat {
+	case "first":
+		issue(0, nil)
+		wait(holdDeadline)
+		for i := 1; i < k; i++ {
+			issue(i, nil)
+			time.Sleep(stagger)
+		}
+		time.Sleep(2 * stagger)
+		mid(0)
+		finish()
+	case "chain":
+		issue(0, nil)
+		next := 1
+		if !op.Prog {
+			wait(holdDeadline)
+			for ; next < k; next++ {
+				issue(next, nil)
+				time.Sleep(stagger)
+			}
+			time.Sleep(stagger)
+		}
+		ev := "entered"
+		if op.Prog {
+			ev = wait(holdDeadline)
+		}
+		for step := 0; step < 4*k && ev != "timeout"; step++ {
+			if ev == "done" && next >= k {
+				break
+			}
+			if next < k {
+				issue(next, nil)
+				next++
+				time.Sleep(2 * stagger)
+			}
+			mid(step)
+			g.releaseOne()
+			ev = wait(holdDeadline)
+		}
+		finish()
+	default: // "free"
+		start := make(chan struct{})
+		for i := 0; i < k; i++ {
+			issue(i, start)
+		}
+		close(start)
+		mid(0)
+		finish()
+	}
+
+	r.src.mu.Lock()
+	r.src.grp = nil
+	r.src.mu.Unlock()
+
+	// Observations and handler-level actions.  The calls were started in
+	// script order; the handler took them in g.order.
+	g.mu.Lock()
+	order := append([]int{}, g.order...)
+	g.mu.Unlock()
+	for range g.ms {
+		r.act("ACall")
+	}
+	pending := make([]int, k)
+	for i := range pending {
+		pending[i] = i
+	}
+	take := func(i int) int {
+		for p, x := range pending {
+			if x == i {
+				pending = append(pending[:p], pending[p+1:]...)
+				return p
+			}
+		}
+		return 0
+	}
+	for _, i := range order {
+		m := g.ms[i]
+		p := take(i)
+		if m.ok {
+			m.obs.Reg = len(r.regOrder)
+			r.regOrder = append(r.regOrder, m.script)
+			r.act(c.App("AReg", fmt.Sprint(p), zlist(m.obs.Backlog)))
+		} else {
+			r.act(c.App("AFail", fmt.Sprint(p)))
+		}
+	}
+	for range pending {
+		r.act("(AFail 0)")
+	}
+	for _, m := range g.ms {
+		if m.ok {
+			r.addSub(m.st)
+			r.nOK++
+		} else {
+			g.bounds(m)
+			r.h.Subs = append(r.h.Subs, *m.obs)
+			r.addSub(nil)
+		}
+	}
 }
 
 func (r *runner) doCancel(script int, st *subState) {
 	if st == nil {
 		return
 	}
+	st.endReq.Store(true)
 	ok := withDeadline(callDeadline, func() { st.sub.Cancel() })
 	ehi := r.started.Load()
 	if !ok {
@@ -499,6 +965,13 @@ func (r *runner) doSync() {
 			continue
 		}
 		for !st.has(id) {
+			st.mu.Lock()
+			cl := st.closed
+			st.mu.Unlock()
+			if cl && !st.endReq.Load() && !st.has(id) {
+				r.fail("not-delivered", fmt.Sprintf("live reading subscriber %d did not receive event %d: its channel was closed although it was not cancelled", i, id))
+				break
+			}
 			if time.Now().After(dl) {
 				r.fail("not-delivered", fmt.Sprintf("live reading subscriber %d did not receive event %d within %v", i, id, syncDeadline))
 				break
@@ -516,8 +989,13 @@ func run(h *History) []c.ImplFailure {
 		switch op.Kind {
 		case "aemit", "acancel", "astop":
 			h.Det = false
+		case "osub":
+			if len(op.Mid) > 0 {
+				h.Det = false
+			}
 		}
 	}
+	h.Snaps = nil
 	src := &source{ch: make(chan blockntfns.BlockNtfn), bl: map[uint32][]int64{}, er: map[uint32]bool{}, dl: map[uint32]time.Duration{},
 		gate: map[uint32]bool{}, entry: map[uint32][2]int64{}}
 	r := &runner{h: h, src: src, mgr: blockntfns.NewSubscriptionManager(src), stopDoneCh: make(chan struct{})}
@@ -553,10 +1031,14 @@ func run(h *History) []c.ImplFailure {
 			}
 			r.doSub(nsub, op)
 			nsub++
+		case "osub":
+			r.join()
+			r.doGroup(nsub, op)
+			nsub += len(op.Members)
 		case "cancel":
 			if st := r.subAt(op.Sub); st != nil {
 				if !r.stopBegun.Load() {
-					r.act(c.App("ACancel", fmt.Sprint(r.modelIndex(op.Sub))))
+					r.act(c.App("ACancel", fmt.Sprint(r.regIndex(op.Sub))))
 				}
 				r.doCancel(op.Sub, st)
 			}
@@ -600,6 +1082,7 @@ func run(h *History) []c.ImplFailure {
 		r.doStop()
 	}
 	r.endAll(r.started.Load())
+	r.epilogue.Store(true)
 	dl := time.NewTimer(closeDeadline)
 	defer dl.Stop()
 	for i, st := range r.subs {
@@ -630,6 +1113,17 @@ func run(h *History) []c.ImplFailure {
 	r.emitMu.Lock()
 	h.Emitted = append([]int64{}, r.emitted...)
 	r.emitMu.Unlock()
+	r.snapMu.Lock()
+	h.Snaps = append([]SubObs{}, r.snaps...)
+	r.snapMu.Unlock()
+	sort.Slice(h.Snaps, func(i, j int) bool {
+		if h.Snaps[i].Script != h.Snaps[j].Script {
+			return h.Snaps[i].Script < h.Snaps[j].Script
+		}
+		return len(h.Snaps[i].Got) < len(h.Snaps[j].Got)
+	})
+	r.failMu.Lock()
+	defer r.failMu.Unlock()
 	for _, f := range r.fails {
 		h.Fails = append(h.Fails, f.Tag+": "+f.What)
 	}
@@ -686,7 +1180,57 @@ func genHistory(r *rand.Rand, id int, thorough bool) History {
 	malformed := r.Intn(100) < 25
 	nsub := 0
 	gateOK := true // false while an asynchronous emitter may be running
+	// a group of 2-4 NewSubscription calls in progress at the same time
+	addGroup := func() {
+		k := 2 + r.Intn(3)
+		op := Op{Kind: "osub"}
+		switch x := r.Intn(10); {
+		case x < 4:
+			op.Pat = "first"
+		case x < 8:
+			op.Pat, op.Prog = "chain", r.Intn(2) == 0
+		default:
+			op.Pat = "free"
+		}
+		for i := 0; i < k; i++ {
+			m := Member{BL: pickBL(r), Mode: pickMode(r)}
+			if r.Intn(3) == 0 {
+				m.Zero, m.BL = true, 0
+			}
+			if malformed && r.Intn(8) == 0 {
+				m.Fail = true
+			}
+			op.Members = append(op.Members, m)
+		}
+		if r.Intn(10) < 4 {
+			emits := false
+			for j, n := 0, 1+r.Intn(2); j < n; j++ {
+				at := 0
+				if op.Pat == "chain" {
+					at = r.Intn(k)
+				}
+				switch y := r.Intn(3); {
+				case y == 1 && nsub > 0:
+					op.Mid = append(op.Mid, MidAct{At: at, Kind: "cancel", Sub: r.Intn(nsub)})
+				case y == 2 && op.Pat == "chain" && at >= 1:
+					// a member that has (most likely) returned by then
+					op.Mid = append(op.Mid, MidAct{At: at, Kind: "cancel", Sub: nsub + r.Intn(at)})
+				default:
+					if !emits {
+						op.Mid = append(op.Mid, MidAct{At: at, Kind: "emit", N: 1 + r.Intn(3)})
+						emits = true
+					}
+				}
+			}
+		}
+		h.Ops = append(h.Ops, op)
+		nsub += k
+	}
 	addSub := func() {
+		if gateOK && nsub <= 5 && r.Intn(100) < 35 {
+			addGroup()
+			return
+		}
 		op := Op{Kind: "sub", BL: pickBL(r), Mode: pickMode(r)}
 		if r.Intn(12) == 0 {
 			op.Zero, op.BL = true, 0
@@ -803,7 +1347,33 @@ func genHistory(r *rand.Rand, id int, thorough bool) History {
 // corpus: fixed regression histories, run first.
 func corpus() []History {
 	var hs []History
-	// 0: a never-reading subscriber must not delay a fast one over 60 events,
+	// Overlapping NewSubscription calls: every call gets its own identity.
+	// two clients subscribe at the same moment (the second while the handler
+	// reads the first one's backlog): both see every event, Cancel of the
+	// first closes only the first, Stop closes the second
+	hs = append(hs, History{Ops: []Op{
+		{Kind: "osub", Pat: "first", Members: []Member{{Mode: "fast", Zero: true}, {Mode: "fast", Zero: true}}},
+		{Kind: "emit", N: 5}, {Kind: "sync"}, {Kind: "cancel", Sub: 0}, {Kind: "emit", N: 1}, {Kind: "sync"}, {Kind: "stop"}}})
+	// four calls, the handler held in every backlog request in turn, mixed
+	// start heights and readers, then more events than the buffers hold
+	hs = append(hs, History{Ops: []Op{
+		{Kind: "sub", BL: 2, Mode: "fast"}, {Kind: "emit", N: 4},
+		{Kind: "osub", Pat: "chain", Members: []Member{{Mode: "fast", Zero: true}, {BL: 3, Mode: "slow"}, {BL: 25, Mode: "never"}, {Mode: "fast", Zero: true}}},
+		{Kind: "emit", N: 30}, {Kind: "sync"}, {Kind: "cancel", Sub: 2}, {Kind: "cancel", Sub: 4}, {Kind: "emit", N: 3},
+		{Kind: "wake", Sub: 3}, {Kind: "sync"}, {Kind: "stop"}}})
+	// three calls issued one after the other while the handler is held in
+	// the previous one's request; an older subscriber and the first member
+	// are cancelled and an event is offered in between
+	hs = append(hs, History{Ops: []Op{
+		{Kind: "sub", BL: 1, Mode: "fast"}, {Kind: "sub", Mode: "slow", Zero: true}, {Kind: "emit", N: 2},
+		{Kind: "osub", Pat: "chain", Prog: true, Members: []Member{{BL: 2, Mode: "fast"}, {Mode: "fast", Zero: true}, {BL: 22, Mode: "slow"}},
+			Mid: []MidAct{{At: 0, Kind: "cancel", Sub: 1}, {At: 1, Kind: "emit", N: 1}, {At: 2, Kind: "cancel", Sub: 2}}},
+		{Kind: "join"}, {Kind: "emit", N: 25}, {Kind: "sync"}, {Kind: "cancel", Sub: 3}, {Kind: "sync"}, {Kind: "stop"}}})
+	// no gating at all: four goroutines subscribe at the same moment
+	hs = append(hs, History{Ops: []Op{
+		{Kind: "osub", Pat: "free", Members: []Member{{Mode: "fast", Zero: true}, {BL: 1, Mode: "fast"}, {Mode: "fast", Zero: true}, {BL: 2, Mode: "fast"}}},
+		{Kind: "emit", N: 22}, {Kind: "sync"}, {Kind: "cancel", Sub: 1}, {Kind: "cancel", Sub: 2}, {Kind: "sync"}, {Kind: "stop"}}})
+	// a never-reading subscriber must not delay a fast one over 60 events,
 	// then wakes up and must still receive all of them.
 	hs = append(hs, History{Ops: []Op{
 		{Kind: "sub", BL: 0, Mode: "never"}, {Kind: "sub", BL: 3, Mode: "fast"},
@@ -909,20 +1479,32 @@ func zlist(xs []int64) string {
 	return "(unruns " + c.List(it) + ")"
 }
 
+func obsTerm(s *SubObs) string {
+	return c.App("mkObs", zlist(s.Backlog), c.Z(s.RLo), c.Z(s.RHi), zlist(s.Got),
+		c.Bool(s.Closed), c.Bool(s.Ended), c.Z(s.MustUpto), c.Z(s.EHi))
+}
+
 func caseTerm(h *History) string {
-	var subs []string
-	for _, s := range h.Subs {
-		if !s.OK {
-			continue
+	// successful subscriptions in the order the handler registered them
+	var reg []*SubObs
+	for i := range h.Subs {
+		if h.Subs[i].OK {
+			reg = append(reg, &h.Subs[i])
 		}
-		subs = append(subs, c.App("mkObs", zlist(s.Backlog), c.Z(s.RLo), c.Z(s.RHi), zlist(s.Got),
-			c.Bool(s.Closed), c.Bool(s.Ended), c.Z(s.MustUpto), c.Z(s.EHi)))
+	}
+	sort.SliceStable(reg, func(i, j int) bool { return reg[i].Reg < reg[j].Reg })
+	var subs, snaps []string
+	for _, s := range reg {
+		subs = append(subs, obsTerm(s))
+	}
+	for i := range h.Snaps {
+		snaps = append(snaps, obsTerm(&h.Snaps[i]))
 	}
 	acts := "[]"
 	if h.Det {
 		acts = c.List(h.Acts)
 	}
-	return c.Pair(c.Z(int64(h.ID)), c.App("mkCase", zlist(h.Emitted), c.Bool(h.Det), acts, c.List(subs)))
+	return c.Pair(c.Z(int64(h.ID)), c.App("mkCase", zlist(h.Emitted), c.Bool(h.Det), acts, c.List(subs), c.List(snaps)))
 }
 
 func signature(h *History) string {
@@ -944,6 +1526,21 @@ func signature(h *History) string {
 			if op.Gate {
 				sb.WriteString("g")
 			}
+		case "osub":
+			sb.WriteString("O" + op.Pat[:2])
+			if op.Prog {
+				sb.WriteString("p")
+			}
+			for _, m := range op.Members {
+				sb.WriteString(map[string]string{"fast": "F", "slow": "S", "never": "N"}[m.Mode])
+				if m.Zero {
+					sb.WriteString("0")
+				}
+			}
+			for _, ma := range op.Mid {
+				sb.WriteString("m" + ma.Kind[:1])
+			}
+			sb.WriteString(".")
 		case "cancel":
 			sb.WriteString("c")
 		case "acancel":
@@ -1135,7 +1732,15 @@ func main() {
 			if op.Kind == "sub" && op.Gate {
 				rep.Histogram["sub:gated-backlog-request"]++
 			}
+			if op.Kind == "osub" {
+				rep.Histogram["overlap:groups:"+op.Pat]++
+				rep.Histogram["overlap:calls-in-progress-together"] += len(op.Members)
+				if len(op.Mid) > 0 {
+					rep.Histogram["overlap:groups-with-cancel-or-emit-in-between"]++
+				}
+			}
 		}
+		rep.Histogram["snapshots-at-close"] += len(h.Snaps)
 		path := filepath.Join(a.Out, fmt.Sprintf("hist-%d.json", h.ID))
 		c.WriteJSON(path, h)
 		rep.Cases[fmt.Sprint(h.ID)] = path
@@ -1143,7 +1748,7 @@ func main() {
 	rep.Histogram["distinct_signatures"] = len(sigs)
 	rep.Evaluations = len(hs)
 	rep.DistinctNontrivial = len(nontriv)
-	rep.Rule = "histories of subscribe(backlog, fast/slow/never reader) / emit / cancel / wake / sync / stop, with asynchronous emitters racing against subscribe, cancel and stop, executed on the real blockntfns.SubscriptionManager with a scripted NotificationSource; a history is non-trivial when at least two subscribers registered and one of them was owed or received more than 20 notifications (channel capacity); distinct = distinct op-kind signature"
+	rep.Rule = "histories of subscribe(backlog, fast/slow/never reader) / groups of 2-4 overlapping subscribe calls (handler held inside the backlog request of one while the others are issued; cancel or emission in between) / emit / cancel / wake / sync / stop, with asynchronous emitters racing against subscribe, cancel and stop, executed on the real blockntfns.SubscriptionManager with a scripted NotificationSource; a history is non-trivial when at least two subscribers registered and one of them was owed or received more than 20 notifications (channel capacity); distinct = distinct op-kind signature"
 	for i := 0; i < len(hs) && i < 3; i++ {
 		rep.Samples = append(rep.Samples, hs[i])
 	}
